@@ -58,7 +58,7 @@ BOUND = {
              "lists; deepcopy; 8 kinds of plain use (pluck, to_string, to_json, to_data_frame, write_csv, write_json, repr, a sort by a key no item has)",
     "thorough": "same event alphabet; families of <= 5 lists; all event sequences to depth 6",
 }
-TIME_CAP = {"quick": 300, "thorough": 3000}
+TIME_CAP = {"quick": 300, "thorough": 5400}
 EXPLANATION = ("counters: states_new = per-shard distinct states; states_with_obsolete = of those, states with "
                ">= 1 obsolete member; warnings_observed = warning lines seen on checked transitions; shape:* = one "
                "counter per distinct derivation shape (parent-pointer tuple)")
